@@ -12,15 +12,48 @@ import (
 // Input coordinates are decimals n / 10^d (n as BigJ); Q are the harness's own quantised inputs
 // (checked by the spec against Quantise); R64 is the 64-bit result on Q; RD9 is the D result with
 // every coordinate multiplied by 10^(p+9) and rounded (an exact big-float computation).
+// XF: a float64 coordinate logged exactly as m * 2^e
+type XF struct {
+	M BigJ `json:"m"`
+	E int  `json:"e"`
+}
+type XPt [2]XF
+type XPaths [][]XPt
+
+func exactF(v float64) XF {
+	if v == 0 {
+		return XF{M: bigJ64(0), E: 0}
+	}
+	bf := new(big.Float).SetFloat64(v)
+	mant := new(big.Float)
+	exp := bf.MantExp(mant) // v = mant * 2^exp, 0.5 <= |mant| < 1
+	mant.SetMantExp(mant, 53)
+	i, _ := mant.Int(nil)
+	return XF{M: bigJ(i), E: exp - 53}
+}
+
+func exactPaths(s clipper.PathsD) XPaths {
+	out := make(XPaths, len(s))
+	for i, q := range s {
+		out[i] = make([]XPt, len(q))
+		for j, p := range q {
+			out[i][j] = XPt{exactF(p.X), exactF(p.Y)}
+		}
+	}
+	return out
+}
+
 type DviEv struct {
 	Ev    string   `json:"ev"` // "DvsI"
 	Chk   []string `json:"chk"`
 	Api   string   `json:"api"`
 	P     int      `json:"p"`
 	D     int      `json:"d"`
-	A     BPaths   `json:"a"`  // first operand (subject / paths / pattern), decimals n
+	A     BPaths   `json:"a"`  // first operand (subject / paths / pattern), decimals n (how the floats were made)
 	B     BPaths   `json:"b"`  // second operand (clip / path / rectangle as 2 points)
-	QA    BPaths   `json:"qa"` // quantised operands
+	XA    XPaths   `json:"xa"` // the float64 operands actually passed, exactly (m * 2^e)
+	XB    XPaths   `json:"xb"`
+	QA    BPaths   `json:"qa"` // the library's quantisation of the operands (ScalePathsDToPaths64)
 	QB    BPaths   `json:"qb"`
 	Ct    int      `json:"ct"`
 	Fr    int      `json:"fr"`
@@ -188,15 +221,18 @@ func execDvi(e *DviEv, in dviIn) {
 	p, d := e.P, e.D
 	e.A, e.B = decsB(in.a), decsB(in.b)
 	aD, bD := decsToD(in.a, d), decsToD(in.b, d)
+	e.XA, e.XB = exactPaths(aD), exactPaths(bD)
 	e.Ok = true
 	e.R64, e.RD9, e.T64, e.TD, e.QA, e.QB = BPaths{}, BPaths{}, []int{}, []int{}, BPaths{}, BPaths{}
 	inRange := p >= -8 && p <= 8
 	var a64, b64 clipper.Paths64
-	if inRange {
-		a64, e.QA = decsQuant(in.a, d, p)
-		b64, e.QB = decsQuant(in.b, d, p)
-	}
 	scale := math.Pow(10, float64(p))
+	if inRange {
+		// the library's own quantisation (checked by the specification against Quantise); the 64-bit
+		// reference run below uses exactly these integers
+		a64, b64 = clipper.ScalePathsDToPaths64(aD, scale), clipper.ScalePathsDToPaths64(bD, scale)
+		e.QA, e.QB = paths64B(a64), paths64B(b64)
+	}
 	ct, fr := clipper.ClipType(e.Ct), clipper.FillRule(e.Fr)
 	delta := float64(e.Delta) / 100
 	first := func(s clipper.PathsD) clipper.PathD {
